@@ -112,6 +112,13 @@ def run(ck):
         if i % 7 == 6:
             ctor['rfm_params'] = None          # the library's default leaf model (rfm_params=None)
             desc['default_params'] = True
+        # logistic leaf solver (binary, zero_one encoding), given either with the model or with the fit parameters
+        if task == 'class' and i % 4 == 1 and ctor['rfm_params'] is not None:
+            place = ['fit', 'model'][(i // 4) % 2]
+            ctor['rfm_params'][place]['solver'] = 'log_reg'
+            ctor['classification_mode'] = 'zero_one'
+            y = (y > 0).astype(y.dtype); yv = (yv > 0).astype(yv.dtype); y[0] = 0; y[1] = 1; yv[0] = 0; yv[1] = 1
+            desc['solver'] = f'log_reg ({place})'; desc['cmode'] = 'zero_one'
         xr.seed_all(3100 + i + ck.seed)
         src = xr.xRFM(**copy.deepcopy(ctor))
         try:
